@@ -21,7 +21,7 @@ FieldKinds == {"string", "int", "int64", "uint8", "float64", "bool", "bytes", "t
                "self-ptr", "self-slice", "self-map", "mutual", "shared-twice", "deep-shared", "array-byte",
                "emb-unexported", "emb-unexported-ptr", "self-rich", "anon-str", "anon-int",
                "ptr-int", "ptr-float64", "ptr-bool", "ptr-deep-shared",
-               "ptr-bigint", "slice-ptr-bigint", "ptrrecv", "slice-ptrrecv"}
+               "ptr-bigint", "slice-ptr-bigint", "ptrrecv", "slice-ptrrecv", "emb-shadow"}
 TagClasses == {"none", "renamed", "omitempty", "renamed-omitempty", "dash", "string-opt", "js-required", "js-description"}
 Styles == {"inline", "defs", "nested"}
 
